@@ -726,6 +726,36 @@ def rule_r4(repo, tier='quick', depth=None):
     bad = ['', ' ', '@', '@[', '@[1', '@[1]', '@[1]001001', '@[]/001001', '@[a]/001001', '/001001[', '/001001[1', '/001001[1 2', '@[1 0', '0[1 2', '/001001[1:', '/001001[]',
            '/001001[a]', '/001001[1:2:3:4]', '/001001]', '//001001', '/001001/', '/001001//004001', '.A01001', '/001001[1]2', '/001001[1][2]', '/001001[-]', '/001001[--1]',
            '/001001[1-]', '/001001@[1]', '[1]', ':', '/', '>', '/001001.', '/001001>', '@[1:2:3:4]/001001', '/001001[1:2:3:]', 'abc', '/001001[1::2:]']
+    init = repo.method('NodePathParser', '__init__')
+
+    _made = {}
+
+    def fresh_parser(bare, used=None):
+        import copy
+        k = (bare, used)
+        if k not in _made:
+            _made[k] = _fresh_parser(bare, used)
+        return copy.deepcopy(_made[k])
+
+    def _fresh_parser(bare, used=None):
+        """The parser object as its constructor leaves it (every attribute it has is known: reading one that no statement has assigned
+        yet is the AttributeError the running code would raise); `used`: strings it has parsed before, accepted or not."""
+        it0 = ConcreteParser(repo, 'NodePathParser')
+        loc = {'self': Obj('NodePathParser', {})}
+        nd = len(init.defaults)
+        for i, p_ in enumerate(init.params[1:], start=1):
+            di = i - (len(init.params) - nd)
+            loc[p_] = bare if p_ == 'bare_id_matches_all' else (ast.literal_eval(init.defaults[di]) if di >= 0 else None)
+        res0 = it0.run_function(init, lambda: loc, self_class='NodePathParser')
+        if len(res0) != 1 or not res0[0].ok:
+            raise AnalysisError('NodePathParser.__init__ could not be folded: %s' % [r.describe() for r in res0])
+        o = res0[0].locals['self']
+        if 'bare_id_matches_all' not in o.fields:
+            raise AnalysisError('NodePathParser.__init__ does not keep bare_id_matches_all under that name: the rule cannot set the option')
+        o.fields['__exact__'] = True
+        for text0 in used or ():
+            ConcreteParser(repo, 'NodePathParser').run_function(parse, lambda: {'self': o, 'path_expr': text0}, self_class='NodePathParser')
+        return o
     n = 0
     enumerated = 0
     if depth:
@@ -744,22 +774,29 @@ def rule_r4(repo, tier='quick', depth=None):
         enumerated = len(extra)
     else:
         extra = []
-    for bare in (True, False):
-        for text in good + bad + extra:
+    # every string on a parser that has never parsed anything; the hand-written ones also on a parser that has accepted one string and
+    # refused two (one at its first character, one half way)
+    runs = [(bare, text, None) for bare in (True, False) for text in good + bad + extra]
+    runs += [(bare, text, ('@[1]/301011[2].A12101', '.x', '/001001[1:')) for bare in (True, False) for text in good + bad]
+    for bare, text, used in runs:
+        for _once in (0,):
             want = ref_parse(text, bare)
             it = ConcreteParser(repo, 'NodePathParser')
-            res = it.run_function(parse, lambda: {'self': Obj('NodePathParser', {'bare_id_matches_all': bare}), 'path_expr': text}, self_class='NodePathParser')
+            pobj = fresh_parser(bare, used)
+            res = it.run_function(parse, lambda: {'self': pobj, 'path_expr': text}, self_class='NodePathParser')
             if len(res) != 1:
                 raise AnalysisError('parse(%r) forks into %d paths on a concrete string' % (text, len(res)))
             r = res[0]
             n += 1
+            if used:
+                text = text
             if want[0] == 'error':
                 if r.ok:
                     rr.fail('whole-parse:accepts', parse.where, 'the string %r is not in the documented grammar (%s) and is accepted (bare_id_matches_all=%s)' % (text, want[1], bare),
                             witness={'input': text})
                 elif r.exc.cls != 'PathExprParsingError':
-                    rr.fail('whole-parse:error-class', parse.where, 'the ungrammatical string %r is refused with %s, not with the path-parsing error (bare_id_matches_all=%s)' % (
-                        text, r.exc.cls, bare), witness={'input': text})
+                    rr.fail('whole-parse:error-class', parse.where, 'the ungrammatical string %r is refused with %s, not with the path-parsing error (bare_id_matches_all=%s, %s)' % (
+                        text, r.exc.cls, bare, 'parser used before' if used else 'parser object that has not parsed anything yet'), witness={'input': text, 'used_before': bool(used)})
                 continue
             if not r.ok:
                 rr.fail('whole-parse:rejects', parse.where, 'the grammatical string %r is refused with %s (bare_id_matches_all=%s)' % (text, r.exc.cls, bare), witness={'input': text})
